@@ -527,7 +527,10 @@ def k5_constraint_monotone(ctx, inst, suite="K5.constraint_monotone"):
                 c = outcome(ctx.fp, dict(inst, solver_options={"time_limit": 60, "presolve": "off"}))
                 if c["status"] == "solved":
                     payload["presolve_off"] = brief(c)
-                    frac_caps = models.is_cyc(cls) and any(frac(x[2]).denominator != 1 for x in inst.get("flow", []))
+                    # the repetition caps are floored since fix fcfd0b0 (former finding
+                    # C10-highs-presolve-false-infeasible-fractional-cap): look at the caps the model really has
+                    caps = caps_of(ctx.fp, inst, k=inst.get("k")) if models.is_cyc(cls) else None
+                    frac_caps = bool(caps) and any(c != int(c) for c in caps.values())
                     what += (" - explained by HiGHS presolve: with presolve off the same model is solved"
                              + (" (an integer column has a fractional upper bound: the repetition cap is a float flow value)"
                                 if frac_caps else ""))
